@@ -26,7 +26,7 @@ import (
 
 // ---------------------------------------------------------------- scenario
 
-var collideDSeqs = []uint64{1, 12, 256, 257, 65536}
+var collideDSeqs = []uint64{1, 12, 256, 257, 65536, 1<<32 + 7}
 
 func scCollide() Scenario {
 	sc := Scenario{Name: "S-collide", GP: GenesisParams{DeploymentMinDeposit: 10, BidMinDeposit: 5, Funds: 100000, StartHeight: 5}}
@@ -36,7 +36,7 @@ func scCollide() Scenario {
 		d uint64
 		g int
 	}
-	deps := []dep{{"T1", 1, 2}, {"T1", 12, 2}, {"T1", 256, 1}, {"T1", 257, 1}, {"T1", 65536, 1}, {"T2", 1, 1}, {"T2", 12, 1}}
+	deps := []dep{{"T1", 1, 2}, {"T1", 12, 2}, {"T1", 256, 1}, {"T1", 257, 1}, {"T1", 65536, 1}, {"T1", 1<<32 + 7, 1}, {"T2", 1, 1}, {"T2", 12, 1}}
 	for _, d := range deps {
 		pre = append(pre, aCreateDeployment(d.t, d.d, d.g, 3, 10, noReq))
 	}
@@ -51,7 +51,7 @@ func scCollide() Scenario {
 		bids = append(bids, b)
 		pre = append(pre, aCreateBid(b, 3, 5))
 	}
-	for _, b := range []bidRef{{"T1", 1, 1, 1, "P1"}, {"T1", 12, 1, 1, "P1"}, {"T2", 1, 1, 1, "P1"}, {"T1", 256, 1, 1, "P1"}} {
+	for _, b := range []bidRef{{"T1", 1, 1, 1, "P1"}, {"T1", 12, 1, 1, "P1"}, {"T2", 1, 1, 1, "P1"}, {"T1", 256, 1, 1, "P1"}, {"T1", 1<<32 + 7, 1, 1, "P1"}} {
 		pre = append(pre, aBidOp("CreateLease", b))
 	}
 	pre = append(pre, aNext(1))
@@ -67,8 +67,9 @@ func scCollide() Scenario {
 	for _, b := range bids {
 		al = append(al, aBidOp("CreateLease", b), aBidOp("CloseLease", b), aBidOp("CloseBid", b), aBidOp("WithdrawLease", b))
 	}
+	al = append(al, bidOps(bidRef{"T1", 1, 1, 2, "P2"}, 1, true)...)
 	al = append(al,
-		aCreateBid(bidRef{"T1", 1, 1, 2, "P2"}, 1, 5), aCreateBid(bidRef{"T1", 12, 1, 2, "P2"}, 1, 5), aCreateBid(bidRef{"T2", 12, 1, 1, "P2"}, 1, 5),
+		aCreateBid(bidRef{"T1", 12, 1, 2, "P2"}, 1, 5), aCreateBid(bidRef{"T2", 12, 1, 1, "P2"}, 1, 5),
 		aUpdateDeployment("T1", 1, "v2"), aUpdateDeployment("T1", 12, "v2"),
 		aProvider("UpdateProvider", "P1", attrs("aaa", "1"), "aaa=1"),
 		aSign("U1", "P1", attrs("aaa", "1"), "aaa=1"), aSign("U2", "P1", attrs("aaa", "1"), "aaa=1"), aSign("U1", "P2", attrs("aaa", "1"), "aaa=1"),
@@ -134,6 +135,18 @@ func (chkC06) CheckTrans(t *TransCtx) []Viol {
 		ownerAddr = w.Cast.S(owner)
 	}
 	inDeployment := func(o string, d uint64) bool { return hasDep && o == ownerAddr && d == dseq }
+	// group-, bid- and lease-level actions name one group of the deployment: apart from the lazy settlement of the
+	// deployment's escrow account (balances of all its payments accrue), they may only change records of that group —
+	// unless the transaction discovered an overdraft, which legitimately closes the whole deployment.
+	gseqTag := a.Tag["gseq"]
+	groupScoped := gseqTag != "" && hasDep
+	if groupScoped {
+		dk := fmt.Sprintf("%s/%d", ownerAddr, dseq)
+		if pre, post := t.Pre.Deployments[dk], t.Post.Deployments[dk]; pre.State != post.State {
+			groupScoped = false
+		}
+	}
+	inGroup := func(g uint64) bool { return !groupScoped || g == parseU(gseqTag) }
 	keys := map[string]bool{}
 	for k, v := range t.Pre.Raw {
 		if pv, ok := t.Post.Raw[k]; !ok || !bytes.Equal(pv, v) {
@@ -159,17 +172,35 @@ func (chkC06) CheckTrans(t *TransCtx) []Viol {
 			o, q, _, ok := splitOwnerSeqs(key[1:], 1)
 			if !ok || !inDeployment(o, q[0]) {
 				add("deployment-record", "changed deployment-store record %s/%d", o, q[0])
+			} else if key[0] == 2 && groupScoped {
+				if _, gq, _, ok := splitOwnerSeqs(key[1:], 2); ok && !inGroup(gq[1]) {
+					add("other-group", "changed group %s/%d/%d, the message names group %s", o, gq[0], gq[1], gseqTag)
+				}
 			}
 		case "market":
 			o, q, _, ok := splitOwnerSeqs(key[2:], 1)
 			if !ok || !inDeployment(o, q[0]) {
 				add("market-record", "changed market-store record of %s/%d", o, q[0])
+			} else if groupScoped {
+				if _, gq, _, ok := splitOwnerSeqs(key[2:], 2); ok && !inGroup(gq[1]) {
+					add("other-group", "changed a market record of group %s/%d/%d, the message names group %s", o, gq[0], gq[1], gseqTag)
+				}
 			}
 		case "escrow":
 			parts := strings.Split(string(key[1:]), "/")
 			// "", scope, owner, dseq, ...
 			if len(parts) < 4 || !inDeployment(parts[2], parseU(parts[3])) {
 				add("escrow-record", "changed escrow record %s", string(key[1:]))
+			} else if groupScoped && len(parts) >= 5 {
+				// payment "/deployment/owner/dseq/<gseq>/<oseq>/<provider>": may accrue, but its STATE may change only in the named group;
+				// bid deposit account "/bid/owner/dseq/<gseq>/...": only in the named group
+				if !inGroup(parseU(parts[4])) {
+					if parts[1] == "bid" {
+						add("other-group", "changed bid deposit account %s, the message names group %s", string(key[1:]), gseqTag)
+					} else if pk := strings.Join(parts[1:], "/"); t.Pre.Payments[pk].State != t.Post.Payments[pk].State {
+						add("other-group", "changed the state of payment %s, the message names group %s", string(key[1:]), gseqTag)
+					}
+				}
 			}
 		case "provider":
 			if !strings.HasSuffix(a.Kind, "Provider") || sdk.AccAddress(key).String() != w.Cast.S(a.Tag["provider"]) {
